@@ -594,6 +594,7 @@ pub fn execute(sc: &Scenario, scratch: &Scratch, budget: u64) -> Result<RunOut, 
             std::env::set_var("TMPDIR", d);
         }
     }
+    let n_scenario_rules = sc.rules.len();
     let patched = sc.prior_ok_patched;
     let earlier = scratch.path("out/earlier.hex");
     let mut br = br;
@@ -611,6 +612,9 @@ pub fn execute(sc: &Scenario, scratch: &Scratch, budget: u64) -> Result<RunOut, 
         if let Some((pp, pbr)) = prior {
             // the result of the earlier call is not judged here; it is expected to fail
             let _ = std::panic::catch_unwind(std::panic::AssertUnwindSafe(|| if is_code { avra_lib::writer::write_code_hex(pp, &pbr).is_ok() } else { avra_lib::writer::write_eeprom_hex(pp, &pbr).is_ok() }));
+            // the fault belongs to the earlier call only: a writer that never touched the path
+            // itself (it stages the text elsewhere) has not met it, and it must not meet it now
+            crate::simlibc::with_state(|st| st.rules.truncate(n_scenario_rules));
         }
         let old = limit.map(|n| set_fsize(Some(n)));
         let r = if is_code { avra_lib::writer::write_code_hex(p2, &br) } else { avra_lib::writer::write_eeprom_hex(p2, &br) };
